@@ -253,7 +253,7 @@ class AesSfKind(Kind):
         words = words if words is not None else words_forms(rng, 16, k % 23)
         sel = words_positions(words, 16)
         c = {'ns': ns, 'name': name, 'key': key, 'inp': inp, 'words': words, 'dtype': ('uint8', 'int16', 'int64')[k % 3] if k % 4 == 3 else 'uint8',
-             'guess_form': 'array', 'custom_tag': k % 7 == 5}
+             'guess_form': 'array', 'custom_tag': k % 7 == 5, 'precall': k % 5 == 2}
         if guesses == 'default':
             c['guesses'] = None
         else:
@@ -335,6 +335,13 @@ class AesSfKind(Kind):
         before = {n: a.copy() for n, a in meta.items()}
         sf = getattr(mod, name)(**kw)
         obs = {'out': out.tolist()}
+        if case.get('precall'):
+            # the same object called first on another batch (one more trace, other values): no state may leak into the second call
+            other = {n: (np.bitwise_xor(np.vstack([a, a[:1]]), 0x3C).astype(a.dtype) if a.ndim == 2 else a) for n, a in meta.items()}
+            try:
+                sf(**other)
+            except SelectionFunctionError:
+                pass
         try:
             res = sf(**meta)
             obs.update(_mk_words_obs(res))
@@ -385,7 +392,7 @@ class AesSfKind(Kind):
 
     def features(self, case, obs):
         return {'class': case['ns'] + '.' + case['name'], 'klen': len(case['key']), 'traces': len(case['inp']), 'words': case['words']['form'],
-                'guesses': 'default' if case['guesses'] is None else case['guess_form'], 'refused': 'sferror' in obs,
+                'guesses': 'default' if case['guesses'] is None else case['guess_form'], 'refused': 'sferror' in obs, 'precall': bool(case.get('precall')),
                 'key_columns': min(key_columns(case, obs, 16, 256), 3)}
 
     def tags(self, case, obs):
@@ -451,6 +458,8 @@ def sf_shrink(case):
             yield dict(case, inp=[case['inp'][t]])
     if case.get('custom_tag'):
         yield dict(case, custom_tag=False)
+    if case.get('precall'):
+        yield dict(case, precall=False)
     if case['dtype'] != 'uint8':
         yield dict(case, dtype='uint8')
     if case['guesses'] is not None and len(case['guesses']) > 1:
@@ -496,7 +505,7 @@ class DesSfKind(Kind):
         words = words if words is not None else words_forms(rng, 8, k % 23)
         sel = words_positions(words, 8)
         c = {'ns': ns, 'name': name, 'key': key, 'inp': inp, 'words': words, 'dtype': ('uint8', 'int16', 'int64')[k % 3] if k % 4 == 3 else 'uint8',
-             'guess_form': 'array', 'custom_tag': k % 7 == 5}
+             'guess_form': 'array', 'custom_tag': k % 7 == 5, 'precall': k % 5 == 2}
         if guesses == 'default':
             c['guesses'] = None
         else:
@@ -594,6 +603,13 @@ class DesSfKind(Kind):
         before = {n: a.copy() for n, a in meta.items()}
         sf = getattr(mod, name)(**kw)
         obs = {'out': out.tolist()}
+        if case.get('precall'):
+            # the same object called first on another batch (one more trace, other values): no state may leak into the second call
+            other = {n: (np.bitwise_xor(np.vstack([a, a[:1]]), 0x3C).astype(a.dtype) if a.ndim == 2 else a) for n, a in meta.items()}
+            try:
+                sf(**other)
+            except SelectionFunctionError:
+                pass
         try:
             res = sf(**meta)
             obs.update(_mk_words_obs(res))
@@ -625,7 +641,7 @@ class DesSfKind(Kind):
 
     def features(self, case, obs):
         return {'class': case['ns'] + '.' + case['name'], 'klen': len(case['key']), 'traces': len(case['inp']), 'words': case['words']['form'],
-                'guesses': 'default' if case['guesses'] is None else case['guess_form'], 'refused': 'sferror' in obs,
+                'guesses': 'default' if case['guesses'] is None else case['guess_form'], 'refused': 'sferror' in obs, 'precall': bool(case.get('precall')),
                 'key_columns': min(key_columns(case, obs, 8, 64), 3)}
 
     def tags(self, case, obs):
